@@ -228,4 +228,16 @@ def search(ctx):
 
 
 def probe(kf):
-    return False
+    """Replay a recorded known finding on the implementation; True if it still fails."""
+    import jsonpath
+    from jsonpath import JSONPointer
+
+    pr = kf["probe"]
+    try:
+        doc = pr["doc"]
+        for m in jsonpath.finditer(pr["query"], doc):
+            if JSONPointer(str(m.pointer()), unicode_escape=False).resolve(doc) is not m.obj:
+                return True
+        return False
+    except Exception:  # noqa: BLE001
+        return True
